@@ -100,6 +100,19 @@ impl SymbolTable {
         self.contexts.last_mut().unwrap()
     }
 
+    /// The number of names defined in the outermost scope of the global context
+    pub fn num_globals(&self) -> usize {
+        self.contexts[0].symbols[0].len()
+    }
+
+    /// Back to just the global context and its outermost scope, with only its first `num_globals` names.
+    /// Used to forget everything a program defined when it turns out not to compile.
+    pub fn rollback(&mut self, num_globals: usize) {
+        self.contexts.truncate(1);
+        self.contexts[0].symbols.truncate(1);
+        self.contexts[0].symbols[0].truncate(num_globals);
+    }
+
     /// True if we are currently not inside any function
     pub fn in_global_context(&self) -> bool {
         self.contexts.len() == 1
